@@ -702,9 +702,11 @@ def generate(repo):
         except Exception as e:  # fail closed
             val = "None" if ty.startswith("option") else "[]"
         vals.append([name, ty, val, ""])
-    # a shape the translator does not recognise (None): establish the fact by running the few lines it is about
-    # on a crafted input (harness/probes.py); if that cannot tell either, the fact stays None (fail closed)
-    unrecognised = [v for v in vals if v[2] == "None"]
+    # a shape the translator does not recognise as the expected one (None, or a syntactic "false"): the fact is settled
+    # by running the few lines it is about on a crafted input (harness/probes.py), whose verdict on behaviour
+    # overrides the reading of the syntax; if the probe cannot tell either, the translator's value stays (fail closed)
+    # (atomic_links_fact describes a choice between two protocols the crash model handles either way: "false" is a normal reading)
+    unrecognised = [v for v in vals if v[1] == "option bool" and (v[2] == "None" or (v[2] == "Some false" and v[0] != "atomic_links_fact"))]
     if unrecognised:
         try:
             from . import probes
@@ -713,8 +715,8 @@ def generate(repo):
         pr = probes.run_probes(repo)
         for v in unrecognised:
             if pr.get(v[0]) in (True, False):
+                v[3] = "  (* translator read %s from the syntax; settled by the behavioural probe *)" % v[2]
                 v[2] = "Some true" if pr[v[0]] else "Some false"
-                v[3] = "  (* shape not recognised in the source; established by the behavioural probe *)"
     for name, ty, val, note in vals:
         lines.append("Definition %s : %s := %s.%s" % (name, ty, val, note))
     lines.append("")
